@@ -374,8 +374,10 @@ macro_rules | `(tactic| obl_rule) => `(tactic| with_reducible apply lshiftLI_obl
 theorem rshiftLI_obl {a1 a2 : LinComb} (ha : lcEq a1 a2) (n : Int) :
     Obl (OptRel lcEq) (rshiftLI a1 n) (rshiftLI a2 n) := by
   unfold rshiftLI
+  by_cases hn : n < 0
+  · simp only [hn, if_true]; obl
+  simp only [hn, if_false]
   refine Obl.bind (toBits_obl ha none) (fun b1 b2 hb => ?_)
-  rw [hb.length_eq]
   exact Obl.pure (fromBits_rel (hb.drop _))
 macro_rules | `(tactic| obl_rule) => `(tactic| with_reducible apply rshiftLI_obl)
 
